@@ -623,7 +623,7 @@ impl Property for C02 {
         f.dup_positions = false;
         f.allow_unset = false;
         f.max_degree = 3;
-        f.max_terms = if rng.bool() { 4 } else { 8 };
+        f.max_terms = if k % 31 == 5 { 24 } else if rng.bool() { 4 } else { 8 };
         let cfg = Cfg { f };
         if idx >= tbl.len() as u64 {
             return nary(idx - tbl.len() as u64, rng, &cfg, mon);
